@@ -834,9 +834,9 @@ func (d *Decoder) decodeCompositeTypeID(valueJSON any) compositeTypeID {
 	location, qualifiedIdentifier, err := common.DecodeTypeID(d.gauge, typeID)
 	if err != nil {
 		panic(errors.NewDefaultUserError("invalid type ID `%s`: %w", typeID, err))
-	} else if location == nil && sema.NativeCompositeTypes[typeID] == nil {
+	} else if location == nil && sema.NativeCompositeTypes[typeID] == nil && sema.NativeInterfaceTypes[typeID] == nil {
 
-		// If the location is nil, and there is no native composite type with this ID, then it's an invalid type.
+		// If the location is nil, and there is no native composite or interface type with this ID, then it's an invalid type.
 		// Note: This is moved out from the common.DecodeTypeID() to avoid the circular dependency.
 		panic(errors.NewDefaultUserError("invalid type ID for built-in: `%s`", typeID))
 	}
